@@ -299,7 +299,16 @@ public:
 		// what the handler observes
 		Over over;
 		Str mark;
-		if (sl->wantJson) {
+		if (sl->wantJson && q.header("Content-Type") == "application/x-www-form-urlencoded") {
+			// put(Var) on a request that announces form encoding: key=value pairs, percent-encoded
+			Dic<> d;
+			foreach2(String& k, Var& v, sl->json)
+				d[Url::encode(k, true)] = Url::encode(v.toString(), true);
+			bool same = q.body() == BA(d.join('&', '='));
+			over["Content-Length"] = "*";
+			mark = same ? "F1" : "F0";
+		}
+		else if (sl->wantJson) {
 			bool same = q.json() == sl->json && q.body() == BA(Json::encode(sl->json));
 			over["Content-Length"] = "*";
 			mark = same ? "J1" : "J0";
@@ -608,10 +617,11 @@ struct Req {
 	Hdrs headers;
 	bool viaDic;          // headers passed as a Dic to the constructor (not capitalized by the sender)
 	bool follow;
+	bool caller;          // flag C: the 4-argument constructor HttpRequest(method, url, body, headers) on a Dic the caller keeps
 	int times;            // how often the same HttpRequest object is passed to Http::request (flag digit, default 1)
 	char kind;            // n b t j f u
 	Str body;
-	Req() : viaDic(false), follow(true), times(1), kind('n') {}
+	Req() : viaDic(false), follow(true), caller(false), times(1), kind('n') {}
 };
 
 // <method-hex> <target-hex> <D|S><F|N> H<n> .. <kind> [bodyspec]
@@ -620,7 +630,8 @@ static bool reqOf(const Toks& t, size_t& i, Req& r)
 	if (i + 2 >= t.size()) return false;
 	r.method = unhex(t[i]);
 	r.target = unhex(t[i + 1]);
-	r.viaDic = t[i + 2][0] == 'D';
+	r.viaDic = t[i + 2][0] == 'D' || t[i + 2][0] == 'C';
+	r.caller = t[i + 2][0] == 'C';
 	r.follow = t[i + 2].size() > 1 && t[i + 2][1] == 'F';
 	r.times = t[i + 2].size() > 2 && t[i + 2][2] >= '1' && t[i + 2][2] <= '9' ? t[i + 2][2] - '0' : 1;
 	i += 3;
@@ -649,10 +660,24 @@ static Str clientObs(HttpResponse& res, int port, const Var* wantJson)
 	return o;
 }
 
-static HttpRequest* buildRequest(const Req& r, int port, Slot* sl)
+static HttpRequest* buildRequest(const Req& r, int port, Slot* sl, Dic<>* callerDic = 0)
 {
 	String url = String::f("http://127.0.0.1:%d", port) + S(r.target);
 	HttpRequest* q;
+	if (callerDic) {
+		// as Http::post(url, body, headers) does: body and the caller's Dic go to the constructor together
+		Dic<>& h = *callerDic;
+		HttpRequest* c = 0;
+		switch (r.kind) {
+		case 'b': c = new HttpRequest(S(r.method), url, ByteArray((const byte*)r.body.data(), (int)r.body.size()), h); break;
+		case 't': c = new HttpRequest(S(r.method), url, S(r.body), h); break;
+		case 'j': c = new HttpRequest(S(r.method), url, Json::decode(S(r.body)), h); break;
+		case 'f': { Str p = makeFile(r.body, "bin"); caseFiles.push_back(p); c = new HttpRequest(S(r.method), url, File(S(p)), h); break; }
+		default: c = new HttpRequest(S(r.method), url, h); break;
+		}
+		c->setFollowRedirects(r.follow);
+		return c;
+	}
 	if (r.viaDic) {
 		Dic<> d;
 		for (size_t i = 0; i < r.headers.v.size(); i++) d[S(r.headers.v[i].first)] = S(r.headers.v[i].second);
@@ -761,7 +786,10 @@ static Str opXchg(const Toks& t)
 	Var want;
 	if (sl.plan.kind == 'j') want = Json::decode(S(sl.plan.body));
 	// the same HttpRequest object is used `times` times (a client that repeats a request)
-	HttpRequest* q = buildRequest(r, srv->thePort, slp);
+	Dic<> callerDic;
+	if (r.caller)
+		for (size_t k = 0; k < r.headers.v.size(); k++) callerDic[S(r.headers.v[k].first)] = S(r.headers.v[k].second);
+	HttpRequest* q = buildRequest(r, srv->thePort, slp, r.caller ? &callerDic : 0);
 	Str out;
 	for (int k = 0; k < r.times; k++) {
 		{ Lock l(gmx); sl.seen = Seen(); }
@@ -772,6 +800,18 @@ static Str opXchg(const Toks& t)
 		out += (k ? " || " : "") + h + " | " + c;
 	}
 	delete q;
+	if (r.caller) {
+		// the caller's Dic after the request made from it, and a plain GET made from the same Dic
+		out += " ## " + dicStr("D", callerDic, srv->thePort);
+		{ Lock l(gmx); sl.seen = Seen(); sl.wantJson = false; }
+		HttpRequest q2("GET", String::f("http://127.0.0.1:%d", srv->thePort) + S(r.target), callerDic);
+		q2.setFollowRedirects(r.follow);
+		HttpResponse res = Http::request(q2);
+		Str c = clientObs(res, srv->thePort, sl.plan.kind == 'j' ? &want : 0);
+		Str h;
+		{ Lock l(gmx); h = obsOrDash(sl); }
+		out += " ## " + h + " | " + c;
+	}
 	{ Lock l(gmx); current = 0; }
 	retireSlot(slp);
 	return out;
